@@ -175,6 +175,9 @@ type WriteOpts struct {
 	AttachOp    int
 	// Stage: stop after this many API calls (0 = run all). Used by schedulers.
 	DeclaredSizeDelta int64 // added to DataSize of the faulted attachment (to model a lying size)
+	// Options, when set, is handed to NewWriter instead of a fresh value built from the
+	// config (a caller reusing one options value for several writers)
+	Options *mcap.WriterOptions
 }
 
 // WriterSteps returns the writer run as a list of single API-call closures so
@@ -192,7 +195,11 @@ func WriterSteps(cfg scen.Cfg, wl scen.Workload, sink *simdisk.Sink, opt WriteOp
 	steps = append(steps, func() {
 		sink.SetAPI(-1)
 		res.NewPanic = Guard(func() {
-			w, res.NewErr = mcap.NewWriter(sink, WriterOptions(cfg))
+			o := opt.Options
+			if o == nil {
+				o = WriterOptions(cfg)
+			}
+			w, res.NewErr = mcap.NewWriter(sink, o)
 		})
 		if res.NewErr != nil || res.NewPanic != nil || w == nil {
 			dead = true
